@@ -763,8 +763,14 @@ class Probability(Expression):
         return Probability(distribution)
 
     def _get_key(self):  # type:ignore
-        # TODO incorporate more information from children and parents
-        return 0, self.children[0].name
+        # the first child decides, ties are broken by all children and parents so that
+        # different probabilities never have the same key (sorting is then order-independent)
+        return (
+            0,
+            self.children[0].name,
+            tuple(_variable_sort_key(child) + (str(child.star),) for child in self.children),
+            tuple(_variable_sort_key(parent) + (str(parent.star),) for parent in self.parents),
+        )
 
     def to_text(self) -> str:
         """Output this probability in the internal string format."""
@@ -1701,7 +1707,7 @@ class PopulationProbability(Probability):
         return PopulationProbability(population=self.population, distribution=distribution)
 
     def _get_key(self):  # type:ignore
-        return -1, self.population, self.children[0].name
+        return -1, self.population, *super()._get_key()[1:]
 
     def to_y0(self) -> str:
         """Output this probability instance as y0 internal DSL code."""
